@@ -3,6 +3,7 @@
      neigh mk mth                       -> per pixel: count then the entries in slot order (one line)
      part nk nth ihmax v1 ... v(nk*nth) -> label map, row-major [ifreq][iang] (values parsed as double, stored as float,
                                            grid given row-major spec[ifreq*nth+iang] exactly like the numpy array)
+     minval n v1 ... vn                 -> int_minval of the list
    The static buffers persist between requests, as they do inside the Python process. */
 #include SPECPART_C
 #include <string.h>
@@ -41,6 +42,14 @@ int main(void) {
         for (int t = 0; t < nth; t++) printf((f || t) ? " %d" : "%d", ipart[f + nk * t]);
       printf("\n");
       free(spec); free(ipart);
+    } else if (strncmp(s, "minval ", 7) == 0) {
+      /* minval n v1 ... vn -> int_minval(data, n): the helper that decides whether another clean-up sweep is needed */
+      s += 7;
+      int n = strtol(s, &end, 10); s = end;
+      int *d = malloc((n > 0 ? n : 1) * sizeof(int));
+      for (int i = 0; i < n; i++) { d[i] = strtol(s, &end, 10); s = end; }
+      printf("%d\n", int_minval(d, n));
+      free(d);
     } else {
       printf("err\n");
     }
